@@ -17,6 +17,7 @@ import Sudachi.Model.Codec
 import Sudachi.Model.CodecBuild
 import Sudachi.Model.Trie
 import Sudachi.Model.BuildIO
+import Sudachi.Model.RecycleIO
 /-! Line protocol dispatcher: one case per line in, one answer per line out. -/
 namespace Driver
 
@@ -43,6 +44,7 @@ def answer (line : String) : String :=
     | "C05" => Codec.handle rest
     | "C04" => Trie.handle op rest
     | "C06" => Build.handle rest
+    | "C10" => Recycle.IO.handle rest
     | _ => "bad-op"
   | _ => "bad-op"
 
